@@ -92,6 +92,13 @@ def _group_scenario(gseed: int, large: bool) -> dict:
                     nl["upper_bounds"][j] = gen.INF
     if rng.random() < 0.2 and not large:
         gen.add_nan_faults(rng, scn, rate=1.0, max_faults=2)
+    if not large and backend in ("scripted", "differential_evolution") and rng.random() < 0.25:
+        # threshold 0 with a NaN-tolerant method: an evaluation in which everything fails must not stop the run,
+        # in-process and through the external process alike
+        cfg["realizations"]["realization_min_success"] = 0
+        if backend == "scripted":
+            cfg["optimizer"]["options"]["allow_nan"] = True
+        scn["faults"].append({"kind": "nan", "eval": rng.randrange(0, 3), "real": None, "pert": None, "col": None})
     scn["backend"] = backend
     scn["large"] = large
     scn["kseed"] = rng.getrandbits(32)
@@ -406,7 +413,11 @@ def _close_traces(a, b) -> str:
         if not np.allclose(x.variables, y.variables, rtol=1e-6, atol=1e-9):
             # the first differing call decides: tiny differences may grow in later iterates
             return "different" if np.array_equal(ca[0].variables, cb[0].variables) is False else "diverged"
-    if len(ca) != len(cb) or a.exits != b.exits:
+    ea = [(e[0], e[2] if e[0] == "ret" else None) for e in a.exits]
+    eb = [(e[0], e[2] if e[0] == "ret" else None) for e in b.exits]
+    if ea != eb:
+        return "different"  # another exit code / kind of ending is never rounding noise of the algorithm
+    if len(ca) != len(cb):
         return "diverged" if n >= 2 else "different"
     return "close"
 
